@@ -1,6 +1,7 @@
 package main
 
 import (
+	"regexp"
 	"bytes"
 	"context"
 	"crypto/sha256"
@@ -39,6 +40,36 @@ func (o *Obligation) Query(withModel bool) string {
 	for _, a := range o.Decls.axiom {
 		b.WriteString("(assert " + a + ")\n")
 	}
+	// file-level axioms: relevance closure over the abstract symbols they mention
+	if len(o.Decls.optAxioms) > 0 {
+		var ctx strings.Builder
+		for _, a := range o.Decls.axiom {
+			ctx.WriteString(a)
+		}
+		for _, a := range o.Assume {
+			ctx.WriteString(a)
+		}
+		ctx.WriteString(o.Goal)
+		text := ctx.String()
+		included := make([]bool, len(o.Decls.optAxioms))
+		for changed := true; changed; {
+			changed = false
+			for i, oa := range o.Decls.optAxioms {
+				if included[i] {
+					continue
+				}
+				for _, sy := range oa.syms {
+					if strings.Contains(text, sy+" ") || strings.Contains(text, sy+")") {
+						included[i] = true
+						changed = true
+						text += oa.text
+						b.WriteString("(assert " + oa.text + ")\n")
+						break
+					}
+				}
+			}
+		}
+	}
 	// distinct string literals
 	var lits []string
 	for _, l := range o.Decls.order {
@@ -60,7 +91,52 @@ func (o *Obligation) Query(withModel bool) string {
 	if len(globs) > 1 {
 		b.WriteString("(assert (distinct " + strings.Join(globs, " ") + "))\n")
 	}
+	// global invariants are relevant only to queries that mention one of their package-level variables
+	var giText strings.Builder
+	nGI := 0
 	for _, a := range o.Assume {
+		if o.Decls.giSet[a] {
+			nGI++
+		} else {
+			giText.WriteString(a)
+			giText.WriteByte(' ')
+		}
+	}
+	giText.WriteString(o.Goal)
+	skipGI := map[string]bool{}
+	if nGI > 0 {
+		text := giText.String()
+		pending := map[string][]string{}
+		for _, a := range o.Assume {
+			if o.Decls.giSet[a] {
+				pending[a] = globSymRe.FindAllString(a, -1)
+			}
+		}
+		for changed := true; changed; {
+			changed = false
+			for _, a := range o.Assume {
+				syms, ok := pending[a]
+				if !ok {
+					continue
+				}
+				for _, sy := range syms {
+					if strings.Contains(text, sy+" ") || strings.Contains(text, sy+")") {
+						delete(pending, a)
+						text += a + " "
+						changed = true
+						break
+					}
+				}
+			}
+		}
+		for a := range pending {
+			skipGI[a] = true
+		}
+	}
+	for _, a := range o.Assume {
+		if skipGI[a] {
+			continue
+		}
 		b.WriteString("(assert " + a + ")\n")
 	}
 	b.WriteString("(assert (not " + o.Goal + "))\n")
@@ -70,6 +146,8 @@ func (o *Obligation) Query(withModel bool) string {
 	}
 	return b.String()
 }
+
+var globSymRe = regexp.MustCompile(`g\.[A-Za-z0-9_.$]+`)
 
 type solveResult struct {
 	status string
@@ -120,6 +198,8 @@ type Solver struct {
 	Timeout  time.Duration
 	Consensus bool // thorough: run all solvers
 	mu       sync.Mutex
+	retryMu  sync.Mutex
+	retries  int
 	cache    map[string]solveResult
 	inflight map[string]chan struct{}
 	TotalSecs map[string]float64
@@ -208,6 +288,37 @@ func (s *Solver) Solve(o *Obligation) {
 			best = r
 		} else if best.status == "unknown" && r.status == "error" && best.out == "" {
 			best = r
+		}
+	}
+	// A timeout may be load-induced (several checks sharing the machine). Retry a bounded number of such obligations
+	// one at a time with three times the budget before reporting them undischarged.
+	if best.status == "timeout" && !o.Smoke {
+		s.mu.Lock()
+		retry := s.retries < 6
+		if retry {
+			s.retries++
+		}
+		s.mu.Unlock()
+		if retry {
+			s.retryMu.Lock()
+			rctx, rcancel := context.WithCancel(context.Background())
+			rch := make(chan solveResult, len(cfgs))
+			for _, c := range cfgs {
+				go func(c SolverCfg) { rch <- runSolver(rctx, c, file, 3*timeout) }(c)
+			}
+			for range cfgs {
+				r := <-rch
+				s.mu.Lock()
+				s.TotalSecs[r.solver] += r.secs
+				s.mu.Unlock()
+				if r.status == "unsat" || r.status == "sat" {
+					best = r
+					best.solver += "(retry)"
+					break
+				}
+			}
+			rcancel()
+			s.retryMu.Unlock()
 		}
 	}
 	s.mu.Lock()
